@@ -139,7 +139,7 @@ fn c12_case(c: &ValueCase) -> CaseResult {
 
 pub fn c12(ctx: &mut Ctx) {
     ctx.rule = "elements carrying 1-6 (key, value) pairs drawn from the full value strategy (all nine types, lengths {0,1,7,8,14,15,16,17,31,32,33,40} U 0..40 U occasionally 200-5000, ASCII / 2- / 3- / 4-byte UTF-8 and embedded NUL, extreme integers, floats by bit pattern incl. NaN payloads, signed zeros, subnormals) used both as key and as value, stored on DbMemory, Db and DbFile; read back (all values and by each key) directly, after drop+reopen with the same and the other file variant, and after backup+reload of the memory variant; compared bit for bit. Thorough adds the exhaustive grid length 0..40 x {ASCII, 2-, 3-, 4-byte fill} for strings and 0..40 for bytes. evaluations = pairs checked. Non-trivial: key or value has byte length 14..17 or 0, or is a NaN / -0.0 / subnormal float, or an empty vector. Distinct = hash of the pair.".into();
-    let cases = ctx.tier.pick(3000, 60_000);
+    let cases = ctx.tier.pick(20_000, 200_000);
     replay_saved::<ValueCase, _>(ctx, "c12-values", c12_case);
     if ctx.tier == Tier::Thorough {
         // exhaustive length grid
@@ -306,7 +306,7 @@ fn failing_unit_kinds(u: &Step) -> String {
 
 pub fn c13(ctx: &mut Ctx) {
     ctx.rule = "a generated prefix history (state with values, aliases, edges, indexes), then one unit that fails: a mutable transaction of 1-8 arbitrary mutating queries (weighted towards value replacement, alias re-assignment and stealing, node removal with edges and values, index create/remove with populated data, insert-or-update through ids) whose closure returns Err after query k (every k) or which hits a failing query, OR a single query constructed to fail part-way (values / aliases / removals whose j-th id is missing, alias lists with an empty alias at position j); oracle: the call returned Err, the order-insensitive canonical dump before == after, and a generated suffix history conforms to the model that never saw the failed unit. Non-trivial: the failed unit had executed >=2 successful mutations before the error. Distinct = hash of the case.".into();
-    let cases = ctx.tier.pick(8000, 150_000);
+    let cases = ctx.tier.pick(60_000, 600_000);
     let mut p = Profile::general();
     p.w_insert_index = 4;
     p.w_remove_index = 2;
@@ -533,7 +533,7 @@ fn c05_case(c: &MaintCase) -> CaseResult {
 
 pub fn c05(ctx: &mut Ctx) {
     ctx.rule = "a generated history (10-60 steps) on Db, DbFile or DbMemory, then a generated sequence of 1-4 maintenance operations from {drop+reopen same variant, drop+reopen as the other file-backed variant, optimize_storage, shrink_to_fit, backup then open the backup (memory: backup then DbMemory::new), copy (continue on the copy), rename}, more steps, a second maintenance round, and a tail of steps. Oracle (metamorphic): the exact canonical dump (ids, endpoints, property order, per-node edge order and counts, aliases, index contents) plus the result sequence of bfs/dfs from/to from every element is identical before and after each maintenance operation; all steps, including those after maintenance, conform to the reference model. evaluations = maintenance operations checked. Non-trivial: at the first maintenance round the history had >=1 removal and >=1 index and >=1 alias. Distinct = hash of the case.".into();
-    let cases = ctx.tier.pick(1200, 25_000);
+    let cases = ctx.tier.pick(4000, 40_000);
     let mk = || {
         let mut p = Profile::general();
         p.w_insert_index = 5;
@@ -701,7 +701,7 @@ impl<S: StorageData> TxRunner for DbImpl<S> {
 
 pub fn c06(ctx: &mut Ctx) {
     ctx.rule = "generated histories (20-120 steps incl. reads, failing queries and rolled-back transactions) run in lock-step on DbMemory, DbFile, Db, DbAny::new_memory, DbAny::new_file and DbAny::new_mapped. Oracle (differential): for every query all six return the same Ok(QueryResult) (exact equality, floats bitwise) or all return Err; the final extended dumps (canonical dump + every search order from every element) are equal. evaluations = steps executed on all six. Non-trivial: the history contains >=1 failing query and >=1 value stored out of line (>15 bytes). Distinct = hash of the history.".into();
-    let cases = ctx.tier.pick(800, 15_000);
+    let cases = ctx.tier.pick(2000, 25_000);
     let (lo, hi) = ctx.tier.pick((20, 80), (20, 120));
     let mk = move || {
         let mut p = Profile::general();
@@ -892,7 +892,7 @@ fn c19_case(c: &CycleCase) -> CaseResult {
 
 pub fn c19(ctx: &mut Ctx) {
     ctx.rule = "long histories (hundreds to thousands of queries) of insert/remove cycles over many distinct hashed keys: aliases (insert, remove, re-alias, new nodes with aliases, node removal) and values of an indexed key (insert, replace, remove), with the number of distinct keys swept over 1..300 so that the tombstone count passes the 64-slot minimum capacity and every rehash threshold, interleaved with lookups. Oracle: work budget, not wall clock - the database runs on a public StorageData wrapper that counts storage calls; every query gets 10^6 calls (the largest legitimate query of these histories needs < 10^4, reported in the labels) and a query that exhausts the budget is reported as non-terminating. evaluations = queries executed. Non-trivial: >=64 distinct keys were inserted and removed from one hashed collection. Distinct = hash of the case.".into();
-    let cases = ctx.tier.pick(1000, 20_000);
+    let cases = ctx.tier.pick(6000, 40_000);
     let max_ops = ctx.tier.pick(120usize, 300usize);
     let mk = move || {
         let op = prop_oneof![
